@@ -672,7 +672,7 @@ func term(kind string, b string) (int, int) {
 }
 
 func oracleC17(c *oracleCfg) *report {
-	r := newReport("C17", "bounds/order/count of the token stream for every generated HTML input in the five contexts; first-terminator oracle for opener x body over {- ! > NUL a ] % <} to a bound and decoy-rich random bodies, incl. quoted attribute values; non-trivial = at least two tokens / body contains a terminator byte")
+	r := newReport("C17", "bounds/order/count of the token stream for every generated HTML input in the five contexts; first-terminator oracle for opener x body over {- ! > NUL a ] % < \" '} to a bound and decoy-rich random bodies, incl. quoted attribute values; non-trivial = at least two tokens / body contains a terminator byte")
 	parallel(c.stream("hx"), func(s string) {
 		nt := false
 		for ctx := 0; ctx < 5; ctx++ {
@@ -699,6 +699,10 @@ func oracleC17(c *oracleCfg) *report {
 					r.fail("order", s, fmt.Sprintf("ctx=%d token %d %+v after end %d", ctx, i, t, last))
 				}
 				last = t.Off + t.Len
+				// a DOCTYPE token ends at the first `>`: it never contains one, whatever else (quotes included) it contains
+				if t.Type == 9 && t.Off >= 0 && t.Off+t.Len <= len(s) && strings.IndexByte(s[t.Off:t.Off+t.Len], '>') >= 0 {
+					r.fail("first-terminator", s, fmt.Sprintf("ctx=%d DOCTYPE token %+v contains '>'", ctx, t))
+				}
 			}
 		}
 		r.eval(s, nt)
@@ -756,7 +760,7 @@ func oracleC17(c *oracleCfg) *report {
 		bound = 6
 	}
 	for _, op := range openers {
-		exhaustive("", []byte("-!>\x00a]%<"), bound, func(body string) { checkBody(op, body) })
+		exhaustive("", []byte("-!>\x00a]%<\"'"), bound, func(body string) { checkBody(op, body) })
 	}
 	rng := rand.New(rand.NewSource(c.seed*41 + 2))
 	n := int(40000 * c.scale)
